@@ -11,7 +11,7 @@ Expressions (tuples):
   ("agg", name, (ops..), (field names..))
   ("havoc", l, why)               value no longer known (written through a &mut / unknown statement)
 """
-from mirlite import callee, ty_str, op_place
+from mirlite import callee, ty_str, op_place, bool_transfer, bool_switch_target
 from flow import proj_key
 
 # calls that hand their (first) argument on unchanged, as far as the *value* is concerned
@@ -39,17 +39,23 @@ def simple_paths(body, src, dst, avoid=(), limit=512):
         can.add(x)
         st.extend(pred[x])
 
-    def go(bb, path, seen):
+    def go(bb, path, seen, known):
         if len(out) >= limit:
             return
         if bb == dst:
             out.append(path + [bb])
             return
+        # constants known on this path (bool flags, enum variants built by aggregates, `?` on them) prune
+        # the edges that cannot be taken
+        known = bool_transfer(body, bb, known)
+        only = bool_switch_target(body, bb, known)
         for s in normal_succ(body, bb):
+            if only is not None and s != only:
+                continue
             if s in seen or s in avoid or s not in can:
                 continue
-            go(s, path + [bb], seen | {s})
-    go(src, [], {src})
+            go(s, path + [bb], seen | {s}, known)
+    go(src, [], {src}, {})
     return out
 
 
@@ -238,6 +244,15 @@ def norm(e):
         # `(a op_with_overflow b).0` is the arithmetic result
         if base[0] == "bin" and base[1].endswith("WithOverflow") and k in ("0", ("f", 0)):
             return ("bin", base[1][:-len("WithOverflow")], base[2], base[3])
+        # projection out of a value that was built on this very path: (Variant(x) as Variant).0 = x, (a, b).1 = b
+        if base[0] == "field" and isinstance(base[2], tuple) and base[2][0] == "dc" and k in ("0", ("f", 0)):
+            inner = strip(base[1])
+            if inner[0] == "agg" and str(inner[1]).endswith("::%s" % base[2][1]) and len(inner[2]) == 1:
+                return inner[2][0]
+        if base[0] == "agg" and base[1] == "tuple":
+            idx = k[1] if isinstance(k, tuple) and k[0] == "f" else (int(k) if isinstance(k, str) and k.isdigit() else None)
+            if idx is not None and idx < len(base[2]):
+                return base[2][idx]
         return ("field", base, k)
     if e[0] == "agg":
         return ("agg", e[1], tuple(norm(a) for a in e[2]), e[3])
@@ -294,3 +309,61 @@ def show(e, depth=0):
     if k == "agg":
         return "%s{%s}" % (str(e[1]).rsplit("::", 2)[-1], ", ".join(show(a, depth + 1) for a in e[2]))
     return str(e)[:60]
+
+
+# ---------------------------------------------------------------- value cores and field chains
+OPTION_PLUMB = (
+    "core::option::Option::<T>::as_ref", "core::option::Option::<T>::as_mut", "core::option::Option::<&T>::copied",
+    "core::option::Option::<&T>::cloned", "core::option::Option::<T>::ok_or", "core::option::Option::<T>::ok_or_else",
+    "core::option::Option::<T>::unwrap", "core::option::Option::<T>::expect", "core::result::Result::<T, E>::unwrap",
+    "core::result::Result::<T, E>::expect", "core::result::Result::<T, E>::map_err", "core::ops::try_trait::Try::branch",
+    "core::option::Option::<T>::as_deref", "core::result::Result::<T, E>::ok",
+)
+PAYLOAD_VARIANTS = ("Some", "Ok", "Continue")
+
+
+def core(e):
+    """The value an expression carries once Option/Result wrapping and unwrapping is ignored:
+    Some(x), Ok(x), x?, x.unwrap(), x.ok_or(..), x.as_ref(), (x as Some).0 ... all have core x.
+    (Whether the unwrapping can fail is a matter of the path condition, not of the value.)"""
+    while True:
+        e = strip(e)
+        if e[0] == "agg" and str(e[1]).rsplit("::", 1)[-1] in PAYLOAD_VARIANTS and len(e[2]) == 1:
+            e = e[2][0]
+        elif e[0] == "call" and e[1] in OPTION_PLUMB and e[2]:
+            e = e[2][0]
+        elif e[0] == "field" and e[2] in ("0", ("f", 0)) and e[1][0] == "field" and isinstance(e[1][2], tuple) and \
+                e[1][2][0] == "dc" and e[1][2][1] in PAYLOAD_VARIANTS:
+            e = e[1][1]
+        elif e[0] == "field" and e[1][0] == "agg" and e[1][1] == "tuple" and isinstance(e[2], tuple) and e[2][0] == "f" and \
+                e[2][1] < len(e[1][2]):
+            e = e[1][2][e[2][1]]
+        elif e[0] == "field" and e[2] in ("0", "1", "2") and strip(e[1])[0] == "agg" and strip(e[1])[1] == "tuple":
+            e = strip(e[1])[2][int(e[2])]
+        else:
+            return e
+
+
+def field_chain(e):
+    """(root, [field names]) of a nested field access, looking through wrapping at every level; tuple
+    positions and enum payload steps appear as ints / '@Variant'."""
+    names = []
+    while True:
+        e = core(e)
+        if e[0] != "field":
+            return e, list(reversed(names))
+        k = e[2]
+        if isinstance(k, tuple):
+            if k[0] == "f":
+                names.append(k[1])
+            elif k[0] == "dc":
+                names.append("@%s" % k[1])
+            else:
+                names.append(str(k))
+        else:
+            names.append(int(k) if isinstance(k, str) and k.isdigit() else k)
+        e = e[1]
+
+
+def calls_in(e, name_suffix):
+    return [x for x in walk(e) if x[0] == "call" and x[1].endswith(name_suffix)]
